@@ -26,7 +26,14 @@ static int reached[64]; static int nreached;
 void vf_native_reach(int id) { for (int i = 0; i < nreached; ++i) if (reached[i] == id) return; if (nreached < 64) reached[nreached++] = id; }
 static void dump_reach(void) { printf("REACH"); for (int i = 0; i < nreached; ++i) printf(" %d", reached[i]); printf("\n"); }
 void vf_native_assume_fail(void) { exit(77); }
-void vf_native_assert_fail(int id) { dump_reach(); printf("ASSERT %d\n", id); fflush(stdout); exit(1); }
+/* harness assertions (id > 0) are recorded and the run continues, so that one divergence is reported under every property
+   whose assertion it breaks (the first failing assertion may belong to another property); environment failures abort. */
+static int failed_ids[64]; static int nfailed;
+static void dump_failed(void) { for (int i = 0; i < nfailed; ++i) printf("ASSERT %d\n", failed_ids[i]); }
+void vf_native_assert_fail(int id) {
+  if (id > 0) { for (int i = 0; i < nfailed; ++i) if (failed_ids[i] == id) return; if (nfailed < 64) failed_ids[nfailed++] = id; return; }
+  dump_reach(); dump_failed(); printf("ASSERT %d\n", id); fflush(stdout); exit(1);
+}
 #ifdef CXX_SIDE
 uint8_t vf_nondet_u8(void) { return (uint8_t)vf_native_nondet(8); }
 uint16_t vf_nondet_u16(void) { return (uint16_t)vf_native_nondet(16); }
@@ -54,7 +61,7 @@ int main(int argc, char **argv) {
   vf_init_globals();
 #endif
   for (struct vf_entry *e = vf_entries; e->name; ++e) if (!strcmp(e->name, argv[1])) {
-    e->fn(); dump_reach(); printf("PASS\n"); return 0;
+    e->fn(); dump_reach(); if (nfailed) { dump_failed(); fflush(stdout); return 1; } printf("PASS\n"); return 0;
   }
   fprintf(stderr, "no entry %s\n", argv[1]); return 2;
 }
